@@ -596,7 +596,7 @@ func (c *compiler) buildLA(useTransitions, stats bool) {
 			for ; c.right[i] >= 0; i++ {
 				states = append(states, curr)
 				curr = c.gotoState(curr, Sym(c.right[i]))
-				if curr == -1 {
+				if curr == -1 || !slices.Contains(c.states[curr].core, i+1) {
 					// This rule was pruned from the inner chain of transitions.
 					continue rules
 				}
